@@ -452,9 +452,7 @@ class Runner(object):
         out = attempt_run(self.f, form, m, cid, confobj)
         self.tried, self.clean = name, out[0] == 'ok'
         if form == 'int_no_mol' and out[0] == 'err':
-            self.stats['int_without_molecule_raised'] += 1       # today: always (the id is never turned into a conformer)
-            self.steps_done += 1
-            return
+            self.stats['int_without_molecule_raised'] += 1       # since fix: ddefc9f the form works; a raise is compared with the oracle like any other outcome
         # the oracle: a fresh Fingerprinter on a fresh COPY of the molecule (same atoms, bonds, conformer ids and coordinates,
         # another Python / C++ object): nothing that was attached to the reused molecule object can reach it
         from rdkit import Chem
